@@ -56,6 +56,10 @@ func genDoc(t *rapid.T) *Doc {
 	nm := rapid.IntRange(0, 3).Draw(t, "nmaps")
 	base := uint64(0x10000000)
 	files := []string{"/bin/app", "/lib/libc.so.6", "/lib/libm.so", "/opt/server"}
+	if rapid.IntRange(0, 2).Draw(t, "libfirst") == 0 {
+		// a shared library (or two) mapped below the main binary: listed first, as /proc/self/maps would
+		files = []string{"/lib/libc.so.6", "/lib/libm.so", "/bin/app", "/opt/server"}
+	}
 	for i := 0; i < nm; i++ {
 		size := uint64(rapid.SampledFrom([]int{0x1000, 0x4000, 0x100000}).Draw(t, "msize"))
 		m := MapEnt{Start: base, Limit: base + size, Offset: uint64(rapid.SampledFrom([]int{0, 0x1000, 0x2000}).Draw(t, "moff")), File: files[i],
